@@ -85,8 +85,8 @@ func (s *Sched) SetStrategy(st Strategy) { s.strat = st }
 // Yield is the hook body: park the calling actor until the scheduler releases it.
 func Yield(site string, who int) {
 	bindExplicit(who)
-	Progress.Add(1)
 	raceDisable()
+	Progress.Add(1) // inside the hidden region: an atomic all actors touch must not order them for the race detector
 	s := cur.Load()
 	if s != nil {
 		w := make(chan struct{})
